@@ -156,6 +156,9 @@ class Advertiser(Entity):
         self.production_cost = production_cost
         self.tiers = list(tiers)
         self.platform = platform
+        if evaluation_interval <= 0:
+            # a periodic timer with a zero period re-arms itself at the current instant forever
+            raise ValueError(f"evaluation_interval must be > 0, got {evaluation_interval}")
         self.evaluation_interval = evaluation_interval
         self.margin = product_price - production_cost
 
